@@ -16,7 +16,7 @@ RULE = ("operations with every declared-response set of size<=3 over {200, 204, 
         "each call must raise an instance of the package's HTTPError carrying that status and the response; 4xx -> ClientError, 5xx -> ServerError. "
         "non-trivial = distinct (declared set, status, transport) calls")
 ASSUMPTIONS = [
-    "the server answers with a small JSON body and content-type application/json for every status",
+    "body kinds other than the JSON object are exercised at 10 representative statuses (100, 302, 400, 404, 422, 499, 500, 503, 520, 599), not at all 400",
     "an operation whose generated module cannot be imported is reported under its own clause (no call is possible, so no error can be raised)",
 ]
 BOUND = {"quick": "84 declared sets x 400 statuses x 2 transports", "thorough": "same (the space is complete at this bound) + sets of size 4"}
@@ -54,11 +54,29 @@ def cases(tier, seed):
     return out
 
 
-BODY = base64.b64encode(json.dumps({"id": 1, "message": "m"}).encode()).decode()
+def _b(raw):
+    return base64.b64encode(raw).decode()
+
+
+# error bodies as servers and proxies really send them: (label, content type, raw body)
+BODIES = [
+    ("json-object", "application/json", json.dumps({"id": 1, "message": "m"}).encode()),
+    ("json-array", "application/json", b'[{"msg": "a"}, {"msg": "b"}]'),
+    ("json-string", "application/json", b'"nope"'),
+    ("json-null", "application/json", b"null"),
+    ("json-malformed", "application/json", b"{oops"),
+    ("problem+json", "application/problem+json", b'{"title": "t", "detail": ["x"]}'),
+    ("empty", "application/json", b""),
+    ("html", "text/html; charset=utf-8", b"<h1>Bad gateway</h1>"),
+    ("no-ctype", "", b"plain"),
+]
+BODY_STATUSES = [100, 302, 400, 404, 422, 499, 500, 503, 520, 599]
+# every status with the plain JSON object body + every body kind at ten representative statuses
+CALLS = [(s, 0) for s in STATUSES] + [(s, b) for s in BODY_STATUSES for b in range(1, len(BODIES))]
 
 
 def make_calls(case):
-    return [{"kwargs": {}, "response": {"status": s, "ctype": "application/json", "body_b64": BODY}} for s in STATUSES]
+    return [{"kwargs": {}, "response": {"status": s, "ctype": BODIES[b][1], "body_b64": _b(BODIES[b][2])}} for s, b in CALLS]
 
 
 def run_case(case):
@@ -75,9 +93,9 @@ def run_case(case):
         declared = sorted(c["responses"])
         dlabel = ",".join(f"{k}:{v}" for k, v in c["responses"].items())
 
-        def add(clause, disc, detail, status=None):
+        def add(clause, disc, detail, status=None, body=0):
             sig = f"C06|{clause}|{disc}"
-            key = f"{tr}|{dlabel}|{status}" + ("|via-component-refs" if refs else "")
+            key = f"{tr}|{dlabel}|{status}" + (f"|body={BODIES[body][0]}" if body else "") + ("|via-component-refs" if refs else "")
             if (sig, key) not in seen:
                 seen.add((sig, key))
                 found.append({"sig": sig, "key": key, "msg": f"{detail} [declared {dlabel}; transport {tr}]"})
@@ -94,9 +112,9 @@ def run_case(case):
             continue
         outcomes.add("driven")
         for rec in r["records"]:
-            s = STATUSES[rec["id"][1]]
+            s, bk = CALLS[rec["id"][1]]
             ncalls += 1
-            nontriv.append(f"{tr}|{dlabel}|{s}|{refs}")
+            nontriv.append(f"{tr}|{dlabel}|{s}|{bk}|{refs}")
             cls = f"{s // 100}xx"
             if str(s) in declared:
                 how = "declared"
@@ -104,25 +122,25 @@ def run_case(case):
                 how = "covered-by-default" + ("+content" if c["responses"]["default"] != "none" else "")
             else:
                 how = "undeclared"
-            ctx = f"{tr}|{cls}|{how}"
+            ctx = f"{tr}|{cls}|{how}"  # the body kind is part of the witness key, not of the signature
             if rec.get("lookup_error"):
-                add("lookup", "method not found", rec["lookup_error"], s)
+                add("lookup", "method not found", rec["lookup_error"], s, bk)
                 continue
             if rec.get("kind") != "raise":
-                add(ctx, "call returned a value instead of raising", f"status {s} returned {json.dumps(rec.get('value'))[:80]}", s)
+                add(ctx, "call returned a value instead of raising", f"status {s} returned {json.dumps(rec.get('value'))[:80]}", s, bk)
                 continue
             e = rec["exc"]
             if not e.get("is_HTTPError"):
-                add(ctx, f"raised {e['type']} which is not an HTTPError", f"status {s}: {e['msg'][:120]}", s)
+                add(ctx, f"raised {e['type']} which is not an HTTPError", f"status {s}: {e['msg'][:120]}", s, bk)
                 continue
             if e.get("status_code") != s:
-                add(ctx, "HTTPError.status_code differs from the response status", f"status {s}: status_code={e.get('status_code')}", s)
+                add(ctx, "HTTPError.status_code differs from the response status", f"status {s}: status_code={e.get('status_code')}", s, bk)
             if e.get("response_status") != s:
-                add(ctx, "HTTPError.response missing or not the response", f"status {s}: response_status={e.get('response_status')}", s)
+                add(ctx, "HTTPError.response missing or not the response", f"status {s}: response_status={e.get('response_status')}", s, bk)
             if 400 <= s <= 499 and not e.get("is_ClientError"):
-                add(ctx, f"4xx raises {('HTTPError' if e['type'] == 'HTTPError' else 'a class')} that is not a ClientError", f"status {s}: {e['type']} mro={e['mro'][:4]}", s)
+                add(ctx, f"4xx raises {('HTTPError' if e['type'] == 'HTTPError' else 'a class')} that is not a ClientError", f"status {s}: {e['type']} mro={e['mro'][:4]}", s, bk)
             if 500 <= s <= 599 and not e.get("is_ServerError"):
-                add(ctx, f"5xx raises {('HTTPError' if e['type'] == 'HTTPError' else 'a class')} that is not a ServerError", f"status {s}: {e['type']} mro={e['mro'][:4]}", s)
+                add(ctx, f"5xx raises {('HTTPError' if e['type'] == 'HTTPError' else 'a class')} that is not a ServerError", f"status {s}: {e['type']} mro={e['mro'][:4]}", s, bk)
     return {"findings": found, "evals": ncalls, "nontrivial": nontriv, "nontrivial_multi": True,
             "outcome": "+".join(sorted(outcomes)) + (":finding" if found else ""),
             "sample": {"declared": [sorted(c["responses"]) for c in cs[:3]], "transport": tr, "statuses": len(STATUSES)}}
